@@ -31,6 +31,28 @@ CHECKS = {
              note="Trusted: Lean kernel (propext, Quot.sound), datetime.strptime('%H:%M') and str(timedelta) as modelled for ASCII text.",
              tech="Lean 4 proof (omega + `decide +kernel` text lemmas) + differential correspondence, exhaustive in thorough tier",
              ref="§7 C14"),
+ "C01": dict(text="Lean theorems: (1) every reference frame of every operation kind is well formed (refWire_wellFormed: any session "
+                  "id, id, key, timestamp, accepted argument, IR payload of any length < 65446) via skeleton reflection on the Spec "
+                  "layouts; (2) the frames the model of each type-1/shutter operation writes ARE those reference frames (C02 theorems, "
+                  "whose template/wiring facts are decided on data regenerated from the source), hence well formed; rejected "
+                  "arguments write no command frame. The model's frames are compared byte for byte with the frames the real API "
+                  "objects write (all 12 public operations incl. thermostat control), and every real frame is judged by Spec.wellFormedB.",
+             note="Trusted: Lean kernel (propext, Classical.choice, Quot.sound), translator (templates via string.Formatter.parse, "
+                  "format-argument wiring via ast), scripted in-memory streams instead of sockets, CPython primitives as modelled. "
+                  "Thermostat-control frames: theorem at the reference-layout level + correspondence (per-operation theorem is in C16).",
+             tech="Lean 4 proof by reflection over generated templates (decide +kernel) + differential correspondence + Spec judge",
+             ref="§7 C01"),
+ "C02": dict(text="Lean theorems per operation (control, auto-shutdown, name, schedules list/delete/create, stop, position, state "
+                  "queries, both logins): for ALL accepted arguments, ids, keys, session ids and clock readings the command frame "
+                  "equals the Spec's reference frame (fixed bytes per operation + reference encoding of each argument), each field "
+                  "sits at the protocol's offset and decodes back (refFrame_field, *_decodes), rejected arguments raise after the login "
+                  "frame with no command frame. Facts about templates and argument wiring are decided by the kernel on data regenerated "
+                  "from the source each run. Real API objects are run on generated cases; their frames must equal the reference frame of "
+                  "the independently computed semantic arguments.",
+             note="Trusted: Lean kernel (propext, Classical.choice, Quot.sound), translator, in-memory streams, fixed-offset zones for "
+                  "create_schedule (general zones: C11), CPython primitives as modelled. Known finding F8 (lenient clock strings) excluded by class.",
+             tech="Lean 4 proof (symbolic-layout reflection + encoder laws) + differential correspondence + Spec judge",
+             ref="§7 C02"),
 }
 NOT_YET = "check not built yet in this revision (work in progress; see DESIGN.md Appendix B)"
 m = {
